@@ -15,6 +15,7 @@ Require Import Arith List Bool ZArith String QArith Qcanon.
 From TK Require Import Mat_Sums Mat_Core Mat_Qc Equiv_Model Equiv_Spec Equiv_SpecExec
      Equiv_Proof_Perm Equiv_Proof_Rigid Equiv_Proof_Spectral Equiv_Proof_Affine Equiv_Proof_Knn
      Equiv_Proof_Exec Equiv_Proof_Align Equiv_Proof_Scale Equiv_Effects Equiv_Proof_Effects Equiv_Proof_Main
+     Equiv_Proof_Ties
      Knn_Spec Conn_Model Conn_Spec Conn_Proof_Main Statics.
 Import ListNotations.
 Local Open Scope nat_scope.
@@ -505,6 +506,51 @@ Proof. exact main_checkers_sound. Qed.
 Print Assumptions checkers_sound.
 
 (* ======================================================================================= *)
+(* wave 3: equally distant candidates at the k-th neighbour; covariance from centred vectors  *)
+(* ======================================================================================= *)
+(* the cover-tree wrapper's selection (sort the candidates by (distance, index), keep the first k) is a
+   function of the SET of candidates: the order in which the tree traversal delivers them - which depends
+   on the scale of the data and on the sample order - does not matter *)
+Theorem tie_select_order_independent : forall k (c1 c2 : list cand),
+  Permutation.Permutation c1 c2 -> tie_select k c1 = tie_select k c2.
+Proof. exact tie_select_order_independent_lemma. Qed.
+Print Assumptions tie_select_order_independent.
+
+(* ... and is unchanged when the distances go through ANY strictly increasing map (ties stay ties) *)
+Theorem tie_select_monotone : forall g k (c : list cand),
+  (forall x y, (x < y <-> g x < g y)%Z) -> tie_select k (map (on_dist g) c) = tie_select k c.
+Proof. exact tie_select_monotone_lemma. Qed.
+Print Assumptions tie_select_monotone.
+
+(* ... in particular when the data are scaled by c > 0 (no power-of-two restriction) *)
+Theorem tie_select_scale : forall s k (c : list cand),
+  (0 < s)%Z -> tie_select k (map (on_dist (Z.mul s)) c) = tie_select k c.
+Proof. exact tie_select_scale_lemma. Qed.
+Print Assumptions tie_select_scale.
+
+(* a selection that compares distances only and leaves equally distant candidates in arrival order
+   (std::nth_element under distances_comparator on a two-element tie) depends on the arrival order *)
+Theorem tie_select_arrival_refuted :
+  exists (c1 c2 : list cand),
+    Permutation.Permutation c1 c2 /\ NoDup (map snd c1) /\
+    tie_select_arrival 1 c1 <> tie_select_arrival 1 c2 /\ tie_select 1 c1 = tie_select 1 c2.
+Proof. exact tie_select_arrival_refuted_lemma. Qed.
+Print Assumptions tie_select_arrival_refuted.
+
+(* fixes/F49: the covariance accumulated from centred vectors is the covariance matrix of the shipped
+   expanded formula in every field (so the exact streams cannot tell them apart; binary64 can, at large
+   offsets), and it is translation invariant entry by entry *)
+Theorem cov_centered_is_cov_full : forall F (Fo : FieldOps F) (Ff : IsField F) n (X : mat F) a b,
+  of_nat n <> 0%F -> cov_centered n X a b = cov_full n X a b.
+Proof. exact (fun F Fo Ff => @cov_centered_is_cov_full_lemma F Fo Ff). Qed.
+Print Assumptions cov_centered_is_cov_full.
+
+Theorem cov_centered_translate : forall F (Fo : FieldOps F) (Ff : IsField F) n t (X : mat F) a b,
+  of_nat n <> 0%F -> cov_centered n (translate t X) a b = cov_centered n X a b.
+Proof. exact (fun F Fo Ff => @cov_centered_translate_lemma F Fo Ff). Qed.
+Print Assumptions cov_centered_translate.
+
+(* ======================================================================================= *)
 (* non-vacuity: the hypotheses used above are satisfiable                                    *)
 (* ======================================================================================= *)
 Example hyps_perm_satisfiable :
@@ -532,3 +578,6 @@ Proof. exact (conj (Qc_of_nat_neq0 2 (Nat.neq_succ_0 1)) center_scale_on_witness
 Example hyps_draw_free_satisfiable :
   exists (p : prog nat) s, effects p s = 0 /\ fst (run p s) = 7.
 Proof. exact no_effects_nonvacuous. Qed.
+
+Example hyps_tie_monotone_satisfiable : exists g, forall x y : Z, (x < y <-> g x < g y)%Z.
+Proof. exact tie_select_monotone_hyp_satisfiable. Qed.
